@@ -666,7 +666,9 @@ def wiring(ctx, base, rid):
             'disconnect': 'self._handle_eio_disconnect'}
     got = {}
     ctor = None
-    for n in walk_own(f.node):
+    from ..sym import with_new_helpers
+    for g in with_new_helpers(m, f):
+      for n in walk_own(g.node):
         if isinstance(n, ast.Assign) and U(n.targets[0]) == 'self.eio':
             ctor = n
         if isinstance(n, ast.Call) and U(n.func) == 'self.eio.on' and \
@@ -730,10 +732,20 @@ def send_frames(ctx, cname, rid):
                       % [U(e.expr)[:40] for e in sends_],
                       where=where(f), rid=rid)
         else:
+            iters = [e for e in p.events if e.kind == 'iter']
+            if iters and not sends_:
+                continue         # zero-iteration path of a frame loop
             n_single += 1
-            ok = len(sends_) == 1 and \
-                U(strip_await(run.expand(sends_[0].expr.args[-1]))) == \
-                U(enc[0].expr)
+
+            def one(arg):
+                if U(strip_await(run.expand(arg))) == U(enc[0].expr):
+                    return True
+                d = run.sym_of(arg)
+                return d is not None and d['kind'] == 'loopvar' and \
+                    U(strip_await(run.expand(d['expr']))) == \
+                    '[%s]' % U(enc[0].expr)
+            ok = bool(sends_) and all(one(x.expr.args[-1]) for x in sends_) \
+                and (len(sends_) == 1 or bool(iters))
             ctx.check(ok, construct, 'the single frame is sent once',
                       key='frames-single', where=where(f), rid=rid)
     if not any(list_sent):
